@@ -357,3 +357,27 @@ REG.contract(
     props=["C17"],
     note="LRUCache.flush(key): exactly that entry leaves dict and ring; the recency order of the others is kept (thorough tier)",
 )
+
+# ---- the invariant holds initially: a new LRU cache is an empty dict and a ring that is just the sentinel
+import threading as _threading  # noqa: E402
+from pyvc.sym import SObj as _SObj  # noqa: E402
+import _thread  # noqa: E402
+
+REG.external(_threading.Lock, lambda I, args, kwargs: _SObj(_thread.LockType, {}, label="lock"),
+             "threading.Lock(): a new lock object (acquisition order and blocking are outside the sequential model)")
+REG.contract(
+    "dns.resolver.LRUCache.__init__",
+    params={"self": T.obj("dns.resolver.LRUCache", raw=True), "max_size": T.int},
+    # set_max_size runs before the sentinel exists: its body is executed here (the dict is empty, its loop does not run)
+    inline_calls=["dns.resolver.LRUCache.set_max_size"],
+    raises=[],
+    ensures=[
+        "len(self.data) == 0",
+        "self.max_size == (max_size if max_size >= 1 else 1)",
+        "(self.sentinel.next is self.sentinel) and (self.sentinel.prev is self.sentinel)",
+        "self.statistics.hits == 0 and self.statistics.misses == 0",
+    ],
+    props=["C17"],
+    note="base case of the ring/dict invariant: a new LRU cache is empty, its ring is the sentinel alone (ghost order = [sentinel]), "
+         "its limit is at least 1 and its counters are zero",
+)
